@@ -60,7 +60,7 @@ MAX_ANCHORS = 3
 MAX_FLAGGED = 6
 PERTURBATIONS = ['extra-atom-on-template', 'extra-atom-on-template', 'extra-atom-on-added', 'floating-atom',
                  'bond-inside-placement', 'bond-inside-placement', 'bond-inside-placement',
-                 'bond-to-outside-template-atom', 'wrong-element', 'missing-atom']
+                 'bond-to-outside-template-atom', 'wrong-element', 'missing-atom', 'fake-anchor', 'fake-anchor']
 CHECKED_ATTRS = ('element', 'resid', 'resname', 'chain')
 REPLACE_ATTRS = ('atype', 'charge')
 D1_BUCKET = 'crash:AssertionError:vermouth/processors/canonicalize_modifications.py:identify_ptms'
@@ -485,6 +485,8 @@ def build_molecule(case, blocks, mods, ff):
     # The implementation's search is factorial in the number of flagged atoms of
     # a group it cannot cover (measured: 8 atoms 4 s, 9 atoms 40 s), so the total is capped.
     cap = MAX_FLAGGED - (1 if pert_kind in ('extra-atom-on-template', 'extra-atom-on-added', 'floating-atom') else 0)
+    if pert_kind == 'fake-anchor':
+        cap = MAX_FLAGGED - 3
 
     def sites_of(mod):
         span = len(mod['types']) == 2
@@ -553,7 +555,28 @@ def build_molecule(case, blocks, mods, ff):
             new = add_flagged(PTM_ELEMS[y % len(PTM_ELEMS)], 'UNK', p)
             mol.add_edge(target, new)
             perturbed = 'extra-atom-on-template'
-        elif kind == 'extra-atom-on-added':
+        elif kind == 'fake-anchor' and [m for m in mods if sum(n['kind'] == 'anchor' for n in m['nodes']) == 1
+                                         and sum(n['kind'] == 'ptm' for n in m['nodes']) <= 2]:
+            # an unrecognised atom that carries the NAME of a modification's anchor, with that modification's added atoms
+            # attached to it: nothing explains the named atom (anchors are recognised atoms), so the whole group has no cover
+            pool = [m for m in mods if sum(n['kind'] == 'anchor' for n in m['nodes']) == 1
+                    and sum(n['kind'] == 'ptm' for n in m['nodes']) <= 2]
+            mod = pool[z % len(pool)]
+            target = template_nodes[x % n_template]
+            p = resids.index(mol.nodes[target]['resid'])
+            role_atom = {}
+            for role, node in enumerate(mod['nodes']):
+                if node['kind'] == 'anchor':
+                    new = add_flagged(PTM_ELEMS[y % len(PTM_ELEMS)], node['atomname'], p)
+                    mol.nodes[new]['atomname'] = node['atomname']
+                    mol.add_edge(target, new)
+                else:
+                    new = add_flagged(node['element'], node['atomname'], p)
+                role_atom[role] = new
+            for a, b in mod['edges']:
+                mol.add_edge(role_atom[a], role_atom[b])
+            perturbed = 'fake-anchor'
+        elif kind == 'extra-atom-on-added' and flagged:
             target = flagged[x % len(flagged)]
             p = resids.index(mol.nodes[target]['resid'])
             new = add_flagged(PTM_ELEMS[y % len(PTM_ELEMS)], 'UNK', p)
@@ -1095,10 +1118,10 @@ def _strategy(tier):
     })
     instance = st.tuples(st.integers(0, 4), small).map(list)
     perturb = st.one_of(st.none(), st.none(), st.none(), st.none(), st.none(), st.none(),
-                        st.tuples(st.integers(0, 9), small, small, small).map(list),
-                        st.tuples(st.integers(0, 9), small, small, small).map(list),
-                        st.tuples(st.integers(0, 9), small, small, small).map(list),
-                        st.tuples(st.integers(0, 9), small, small, small).map(list))
+                        st.tuples(st.integers(0, 11), small, small, small).map(list),
+                        st.tuples(st.integers(0, 11), small, small, small).map(list),
+                        st.tuples(st.integers(0, 11), small, small, small).map(list),
+                        st.tuples(st.integers(0, 11), small, small, small).map(list))
     return st.fixed_dictionaries({
         'blocks': st.lists(block, min_size=1, max_size=3),
         'mods': st.lists(mod, min_size=2, max_size=5),
